@@ -30,9 +30,10 @@ for p in props:
 man = {
     'version': 1,
     'setup_cmd': 'python3 -m compileall -q vf check >/dev/null 2>&1; true',
-    'hooks': {'guard': 'DISPENSO_VERIF', 'enable': 'none needed: harnesses are compiled with -fno-access-control, so no source hooks exist', 
+    'hooks': {'guard': 'DISPENSO_VERIF',
+              'enable': 'harnesses that need an interleaving point inside a function are compiled with -DDISPENSO_VERIF (spec cflags) and define dispenso_verif_hook(site); everything else relies on -fno-access-control and needs no hook',
               'baseline_off_cmd': 'cmake --build /repo/_build && ctest --test-dir /repo/_build -j8 --timeout 900',
-              'source_commits': [], 'add_only': True},
+              'source_commits': ['ef7d441'], 'add_only': True},
     'engines': [{'name': 'vf', 'path': 'vf/', 'serves_properties': [c['property_id'] for c in checks],
                  'kind_free_text': 'clang-14 LLVM IR -> own translator -> C for cbmc 6.11 (sequential and partial-order concurrent encodings) / SMT-LIB for z3; native replay of counterexamples'}],
     'checks': checks,
